@@ -410,3 +410,33 @@ package dataflow
 //@   ensures spec_replaces_body: !OD() && function != nil && !summaries.IsSummaryRequired(function) && function.Package() != nil && old(state.Config == nil || state.Config.PkgFilter == "") ==> (result <==> !(summaries.PkgHasSummaries(function.Package()) || old(state.HasExternalContractSummary(function))))
 //@   ensures filter_selects_packages: !OD() && function != nil && !summaries.IsSummaryRequired(function) && function.Package() != nil && old(state.Config != nil && state.Config.PkgFilter != "") && function.Package().Pkg.Path() == "command-line-arguments" ==> result
 //@   modifies nothing
+
+// ---------------------------------------------------------------------------
+// C17: after SyncGlobals every global-access node of the summary is registered at
+// its global: writes in WriteLocations, reads that have outgoing edges in
+// ReadLocations -- for an arbitrary access node (instruction ki, value kv) of the
+// two-level map, iterated in arbitrary order. The traversals jump from a write of a
+// global to exactly the registered read locations (and back).
+//@ macro AG() = old(g.AccessGlobalNodes[ki][kv])
+//@ func SummaryGraph.SyncGlobals
+//@   property C17
+//@   ghost ki ssa.Instruction
+//@   ghost kv ssa.Value
+//@   requires g != nil && has(g.AccessGlobalNodes, ki) && has(g.AccessGlobalNodes[ki], kv)
+//@   ensures writes_registered: AG().IsWrite ==> called(addWriteLoc, AG().Global, AG())
+//@   ensures reads_registered: !AG().IsWrite && old(len(g.AccessGlobalNodes[ki][kv].out)) > 0 ==> called(addReadLoc, AG().Global, AG())
+//@   loop nodeSet invariant outer: visited(nodeSet, ki) ==> (AG().IsWrite ==> called(addWriteLoc, AG().Global, AG())) && (!AG().IsWrite && old(len(g.AccessGlobalNodes[ki][kv].out)) > 0 ==> called(addReadLoc, AG().Global, AG()))
+//@   loop node invariant inner: visited(node, kv) && nodeSet == old(g.AccessGlobalNodes[ki]) ==> (AG().IsWrite ==> called(addWriteLoc, AG().Global, AG())) && (!AG().IsWrite && old(len(g.AccessGlobalNodes[ki][kv].out)) > 0 ==> called(addReadLoc, AG().Global, AG()))
+
+// Assumed (they lock a mutex and `defer` the unlock, which govc does not model): the
+// registration functions only add the node to the location set of the global.
+//@ func GlobalNode.addWriteLoc
+//@   property C17
+//@   assumed
+//@   ensures has(g.WriteLocations, n)
+//@   modifies map(GraphNode;bool)
+//@ func GlobalNode.addReadLoc
+//@   property C17
+//@   assumed
+//@   ensures has(g.ReadLocations, n)
+//@   modifies map(GraphNode;bool)
